@@ -163,6 +163,25 @@ def checked_kernel(case, ctx):
         _compare(det, chk, plain, "between plain and bounds-checked kernel")
 
 
+@subcheck("C01", "final_flush", strategy=lambda tier: gs.chunked_signals(1, 40 if tier == "quick" else 300),
+          quick=3000, thorough=100000, crash_guard=True,
+          doc="the documented flush=True on the LAST feed (forces processing of the last sample): chunked == one piece")
+def final_flush(case, ctx):
+    sig, cuts = case["signal"], case["cuts"]
+    chunks = gs.split(sig, cuts)
+    _classify(sig, cuts, ctx)
+    for det in _rf.DETECTORS:
+        whole = _rf.snapshot(det, _rf.run_chunks(det, [sig], final_flush=True))
+        got = _rf.snapshot(det, _rf.run_chunks(det, chunks, final_flush=True))
+        if len(cuts) >= 1 and (whole["values_from"] or len(whole["residuals"]) >= 3):
+            ctx.nontrivial()
+        _compare(det, got, whole, "at the end (flush=True on the last feed)", ctx, sig)
+        plain = _rf.snapshot(det, _rf.run_whole(det, sig))
+        ctx.label("flush_closed_more" if len(whole["values_from"]) > len(plain["values_from"]) else "flush_closed_nothing")
+        if det != "fkm" and len(whole["residuals"]) != len(plain["residuals"]):
+            ctx.label("flush_changed_residual")
+
+
 @st.composite
 def _histories(draw, tier):
     """A feeding history: chunks are drawn one after the other (stateful form)."""
